@@ -432,6 +432,7 @@ theorem C15_forged_accept_iff (addr : Nat → Bytes) (vh : BFT.Params → Bytes)
         height := hheight
         link := hprev
         lengths := ⟨by rw [hprev]; exact hE.idLengths.1, by rw [hgenb]; exact hE.idLengths.2, by rw [hbeq]; rfl⟩
+        stateRootLength := by rw [hbeq]; rfl
         slotLater := by rw [hts]; exact hE.slotLater
         notFuture := by rw [hts]; exact hE.notFuture
         generator := ?_
